@@ -314,7 +314,17 @@ def pairing_clause(model, rep, funcs):
                     if isinstance(v, ast.Call) and isinstance(v.func, ast.Attribute) and v.func.attr == "construct_loading_tasks" and dotted(v.func.value) == "self":
                         src = v
             a1 = z.args[1] if len(z.args) > 1 else None
-            rows = isinstance(a1, ast.Call) and (dotted(a1.func) or "").endswith("dict_iterrows") and a1.args and norm_src(a1.args[0]) == "var_kwarg"
+            def _is_rows(e):
+                return isinstance(e, ast.Call) and (dotted(e.func) or "").endswith("dict_iterrows") and e.args and norm_src(e.args[0]) == "var_kwarg"
+
+            def _is_empty_rows(e):  # itertools.repeat({}): the row of "no per-molecule argument", as many times as needed
+                return isinstance(e, ast.Call) and (dotted(e.func) or "").split(".")[-1] == "repeat" and len(e.args) == 1 and \
+                    ((isinstance(e.args[0], ast.Dict) and not e.args[0].keys) or norm_src(e.args[0]) == "dict()")
+
+            rows = _is_rows(a1)
+            if not rows and isinstance(a1, ast.Name):
+                vals_ = assigns.get(a1.id, [])
+                rows = bool(vals_) and any(_is_rows(v) for v in vals_) and all(_is_rows(v) or _is_empty_rows(v) for v in vals_)
             ok = src is not None and rows and len(z.args) == 2
             ok_any = ok_any or ok
             rep.ob("O", f.anchor, "tasks of self.construct_loading_tasks() are zipped, unmodified, with the rows of var_kwarg", ok,
@@ -606,6 +616,18 @@ def aliasing_generator_clause(model, rep, funcs):
 
 
 def _immediate_unpack(fn: FuncInfo, call: ast.Call):
+    # the generator may be given a name first (`rows = dict_iterrows(..)` ... `zip(tasks, rows)`): then the name stands for the call, provided every use of
+    # the name is as the iterable of a loop / comprehension (an un-consumed generator is not a collection of rows)
+    alias = None
+    for st in ast.walk(fn.node):
+        if isinstance(st, (ast.Assign, ast.AnnAssign)) and getattr(st, "value", None) is call:
+            t = st.targets[0] if isinstance(st, ast.Assign) else st.target
+            if isinstance(t, ast.Name):
+                alias = t.id
+
+    def _is_carrier(x):
+        return x is call or (alias is not None and isinstance(x, ast.Name) and x.id == alias and isinstance(x.ctx, ast.Load))
+
     for node in ast.walk(fn.node):
         gens = []
         if isinstance(node, (ast.GeneratorExp, ast.ListComp)):
@@ -614,14 +636,14 @@ def _immediate_unpack(fn: FuncInfo, call: ast.Call):
             gens = [(node, node)]
         for g, body in gens:
             it = g.iter
-            inside = any(x is call for x in ast.walk(it))
+            inside = any(_is_carrier(x) for x in ast.walk(it))
             if not inside:
                 continue
             # variable bound to the row
             if isinstance(it, ast.Call) and dotted(it.func) == "zip":
-                pos = [i for i, a in enumerate(it.args) if any(x is call for x in ast.walk(a))]
+                pos = [i for i, a in enumerate(it.args) if any(_is_carrier(x) for x in ast.walk(a))]
                 tgt = g.target.elts[pos[0]] if isinstance(g.target, ast.Tuple) and pos else None
-            elif it is call:
+            elif _is_carrier(it):
                 tgt = g.target
             else:
                 return False, f"rows flow through `{norm_src(it)[:60]}` before use"
